@@ -27,7 +27,7 @@ ANCHORS = [
 UNARY = ["negative", "positive", "absolute", "logical_not", "invert", "sqrt", "square", "sign", "isnan", "exp", "floor"]
 BINARY = ["add", "subtract", "multiply", "true_divide", "floor_divide", "remainder", "power", "maximum", "minimum",
           "equal", "not_equal", "less", "less_equal", "greater", "greater_equal",
-          "bitwise_and", "bitwise_or", "bitwise_xor", "left_shift", "right_shift", "logical_and", "logical_or", "logical_xor"]
+          "bitwise_and", "bitwise_or", "bitwise_xor", "left_shift", "right_shift", "logical_and", "logical_or", "logical_xor", "hypot", "gcd", "lcm", "fmod"]
 # copysign is used in directed float/float cases only: for integer operands numpy resolves it to the smallest float type, which the
 # statement's classes (arithmetic, comparison, bitwise, logical ufuncs) do not cover
 OPS = {"add": operator.add, "subtract": operator.sub, "multiply": operator.mul, "true_divide": operator.truediv,
